@@ -14,10 +14,11 @@ R5 idempotence / conflict policy of paired inserts (insert-if-absent vs overwrit
 from __future__ import annotations
 
 import ast
+import re
 import json
 
 from .. import sqlmini
-from ..flow import call_name, calls_in, mem_store_writes, names_in, self_attr
+from ..flow import call_name, calls_in, mem_store_writes, names_in, parent_map, self_attr
 from ..loader import AnalysisError, ClassInfo, FuncInfo, walk_no_nested
 from ..report import VERIF, Context
 
@@ -389,6 +390,40 @@ def r5(ctx: Context, prs, sites) -> None:
         ok = mem_norm == sq_norm or (sq_norm == "mixed")
         ctx.add("R5", f"{bname}.{meth}::duplicate-key::mem={mem_norm}::sqlite={sq_norm}", ok, a.loc(), "" if ok else f"storing under an existing key: mem {mem_norm}, sqlite {sq_norm} ({sorted(str(p) for p in pol)})")
 
+    # generic: a writer that CREATES the entry in memory (`self.X[<key parameter>] = v`, not under a key-presence test)
+    # must be able to create the row in SQLite (INSERT / REPLACE); an UPDATE-only sibling silently does nothing for a key
+    # without row.  (increment_invocation_retries has its own instance above.)
+    n_gen = 0
+    for b, name, _, a, s in prs:
+        if name == "increment_invocation_retries":
+            continue
+        creating = []
+        pm = parent_map(a.node)
+        for n_ in walk_no_nested(a.node):
+            if isinstance(n_, ast.Assign):
+                for t in n_.targets:
+                    if isinstance(t, ast.Subscript) and isinstance(t.value, ast.Attribute) and self_attr(t) and isinstance(t.slice, ast.Name) and t.slice.id in a.params[1:]:
+                        guarded = any(isinstance(x, ast.If) and any(isinstance(c_, ast.Compare) and any(isinstance(o, (ast.In, ast.NotIn)) for o in c_.ops) and self_attr(c_.comparators[0]) == self_attr(t) for c_ in ast.walk(x.test)) for x in _anc(pm, n_))
+                        if not guarded:
+                            creating.append((n_, self_attr(t)))
+        if not creating:
+            continue
+        fs = _closure(ctx.repo, s)
+        ws = [x for x in sites if x.func in fs and x.verb.split()[0] in ("INSERT", "REPLACE", "UPDATE")]
+        if not ws:
+            continue
+        n_gen += 1
+        can_create = any(x.verb.split()[0] in ("INSERT", "REPLACE") for x in ws)
+        ctx.add("R5", f"{b.name}.{name}::unknown-key::mem=creates::sqlite={'creates' if can_create else 'no-op'}", can_create, ws[0].where, "" if can_create else f"`{ast.unparse(creating[0][0])[:60]}` creates the entry for a key the in-memory store does not hold yet; the SQLite sibling only UPDATEs ({', '.join(sorted({x.verb for x in ws}))}): for a key without row it changes nothing and reports nothing")
+    ctx.floor("R5", "creating writers with a writing SQLite sibling", n_gen, 5)
+
+
+def _anc(pm, node):
+    cur = pm.get(id(node))
+    while cur is not None:
+        yield cur
+        cur = pm.get(id(cur))
+
 
 def _guards_all_writes(f: FuncInfo, ifnode: ast.If) -> bool:
     ws = mem_store_writes(f.node)
@@ -462,10 +497,10 @@ def r6(ctx: Context, prs, sites) -> None:
     ctx.floor("R6", "pairs compared", n, 70)
 
 
-def r7(ctx: Context) -> None:
+def r7(ctx: Context, bases=None) -> None:
     ctx.rule("R7", "multi-valued indexes (attributes annotated dict[K, set|list[V]]): removing a whole key whose expression is not one of the operation's own parameters (a key reached by iterating an entity's references) is allowed only inside `if not self.<index>[key]:` - otherwise the other members of that key vanish, which a relational DELETE by member column never does")
     n = 0
-    for b in BASES:
+    for b in (bases or BASES):
         base = ctx.repo.cls(b)
         for c in [x for x in base.all_subclasses() if x.name.startswith("Mem")]:
             multi: set[str] = set()
@@ -497,11 +532,19 @@ def r7(ctx: Context) -> None:
                     # `not self.<index>[key]` holds on every path to the removal (nested if, guard clause, ...)
                     from ..flow import conditions_at, func_cfg
 
-                    guarded = any(isinstance(t, ast.UnaryOp) and isinstance(t.op, ast.Not) and isinstance(t.operand, ast.Subscript) and self_attr(t.operand) == attr and ast.unparse(t.operand.slice) == ast.unparse(key)
-                                  for t in conditions_at(func_cfg(ctx.repo, m), m.node, x, pm))
+                    def _empty_test(t: ast.AST) -> bool:
+                        if not (isinstance(t, ast.UnaryOp) and isinstance(t.op, ast.Not)):
+                            return False
+                        o = t.operand
+                        if isinstance(o, ast.Subscript):
+                            return self_attr(o) == attr and ast.unparse(o.slice) == ast.unparse(key)
+                        # `not self.<index>.get(key)` / `.get(key, <empty>)`
+                        return isinstance(o, ast.Call) and call_name(o) == "get" and isinstance(o.func, ast.Attribute) and self_attr(o.func.value) == attr and bool(o.args) and ast.unparse(o.args[0]) == ast.unparse(key)
+
+                    guarded = any(_empty_test(t) for t in conditions_at(func_cfg(ctx.repo, m), m.node, x, pm))
                     ok = own_key or guarded
                     ctx.add("R7", f"{m.qualname}::whole-key-removal::{attr}", ok, m.loc(x), "" if ok else f"`{ast.unparse(x)[:70]}` drops every member stored under a key that was reached through another entity's references: members belonging to other entities disappear (the SQLite sibling deletes by member column only)")
-    ctx.floor("R7", "whole-key removals on multi-valued indexes", n, 4)
+    ctx.floor("R7", "whole-key removals on multi-valued indexes", n, 4 if bases is None else 1)
 
 
 def r4_gating_caches(ctx: Context) -> None:
@@ -742,6 +785,28 @@ def r14(ctx: Context) -> None:
     ctx.floor("R14", "identity attribute bindings in readers", n, 8)
 
 
+def r15(ctx: Context, prs, sites) -> None:
+    """`x in key` / `key.startswith(x)` are literal and case-sensitive; SQL LIKE is neither."""
+    ctx.rule("R15", "paired text matching means the same on both backends: where the in-memory method tests a caller's string literally (`p in key`, `.startswith(p)`, `.endswith(p)`, `==`), the SQLite sibling does not bind that string into a LIKE pattern (`%` and `_` inside it act as wildcards and ASCII case is ignored) - it uses instr() / substr() / = (an ESCAPE clause would remove the wildcards but not the case folding)")
+    n = 0
+    for b, name, _, a, sq in prs:
+        params = set(sq.params[1:])
+        for x in sites:
+            if x.func is not sq or not re.search(r"\bLIKE\s+\?", x.template, re.I):
+                continue
+            n += 1
+            # the bound pattern interpolates a parameter?
+            bound = sqlmini.param_exprs(x) or []
+            uses = [p_ for p_ in bound if any(isinstance(y, ast.Name) and y.id in params for y in ast.walk(p_))]
+            literal_mem = any((isinstance(c_, ast.Compare) and any(isinstance(o, (ast.In, ast.Eq)) for o in c_.ops) and isinstance(c_.left, ast.Name) and c_.left.id in a.params) for c_ in ast.walk(a.node)) or any(call_name(c_) in ("startswith", "endswith") for c_ in calls_in(a.node))
+            ok = not uses or not literal_mem
+            ctx.add("R15", f"{b.name}.{name}::text-match-is-literal-on-both-backends", ok, x.where, "" if ok else f"the in-memory sibling matches `{sorted(set(a.params[1:]) & {y.id for p_ in uses for y in ast.walk(p_) if isinstance(y, ast.Name)}) or a.params[1:]}` literally and case-sensitively; SQLite binds it into `LIKE ?` ({ast.unparse(uses[0])[:40]}): `_` / `%` in the searched text match any character(s) and 'abc' matches 'ABC' - the two backends return different sets for the same search")
+    # positive control: the rule's pattern language still finds LIKE statements at all
+    total_like = sum(1 for x in sites if re.search(r"\bLIKE\b", x.template, re.I))
+    ctx.analysed["like_statements"] = total_like
+    ctx.floor("R15", "LIKE statements in the repository", total_like, 2)
+
+
 def run(ctx: Context) -> None:
     sites = sqlmini.sites(ctx.repo)
     prs = pairs(ctx)
@@ -786,6 +851,7 @@ def run(ctx: Context) -> None:
     r12(ctx)
     r13(ctx, sites)
     r14(ctx)
+    r15(ctx, prs, sites)
     ctx.exhaustive = True
     ctx.not_decided += [
         "equivalence over operation sequences and agreement with an executable reference model (behavioural)",
